@@ -23,6 +23,47 @@ STATE_OK = {
 }
 
 
+VARS_RESOLVERS = {"kanata_parser::cfg::sexpr::SExpr::atom", "kanata_parser::cfg::sexpr::SExpr::list",
+                  "kanata_parser::cfg::sexpr::SExpr::span_list"}
+_ACYCLIC = {}
+
+
+def vars_table_is_checked_acyclic(prog):
+    """parse_vars hands out the defvar table only on paths that passed a fallible validation of the whole table
+    (`validate(&vars)?` dominating every Ok(vars)). What the validation checks (reference cycles) is a reviewed fact;
+    that it cannot be skipped is checked here."""
+    if id(prog) in _ACYCLIC:
+        return _ACYCLIC[id(prog)]
+    from kq.core import Resolver
+    ok = False
+    f = prog.fn_opt("kanata_parser::cfg::parse_vars")
+    if f is not None:
+        oks = [(bi, st["rv"]["ops"][0]) for bi, si, st in f.all_rvalues()
+               if st["p"]["l"] == 0 and not proj(st["p"]) and st["rv"]["k"] == "agg" and st["rv"].get("adt") == "core::result::Result"
+               and st["rv"].get("v") == "Ok" and st["rv"]["ops"]]
+        ok = bool(oks)
+        def ident(o):
+            r_ = Resolver(f).root(o)
+            if r_[0] in ("call", "agg"):
+                return (r_[0], r_[1][0])
+            if r_[0] == "param":
+                return ("param", r_[1])
+            return None
+        for (ob, op) in oks:
+            tid = ident(op)
+            dominated = False
+            for bi, t in f.calls():
+                cn = callee_name(t) or ""
+                if not cn.startswith("kanata") or "Result" not in (f.local_ty(t["dest"]["l"]) or ""):
+                    continue
+                if tid is not None and any(is_place(a_) and ident(a_) == tid for a_ in t["args"]) and f.dominates(bi, ob) and bi != ob:
+                    dominated = True
+            ok = ok and dominated
+    _ACYCLIC.clear()
+    _ACYCLIC[id(prog)] = ok
+    return ok
+
+
 def sccs(nodes, succ):
     index, low, onst, st, out = {}, {}, set(), [], []
     counter = [0]
@@ -67,6 +108,9 @@ def sccs(nodes, succ):
     return out
 
 
+TAKEN = {}
+
+
 def classify_arg(f, arg):
     """('structural', param) | ('counter', param) | ('same', param) | ('lookup', what) | ('state', field) | ('other', None)"""
     if not is_place(arg):
@@ -107,6 +151,22 @@ def classify_arg(f, arg):
                 if cn in LOOKUPS:
                     lookups.append(cn)
                     continue
+                if cn == "core::option::Option::take" and payload["args"]:
+                    # the slot is emptied for as long as the value is in use: a nested read finds None
+                    from kq.core import proj_fields as _pf
+                    seen_f = []
+                    w2 = [payload["args"][0]]
+                    d2 = 0
+                    while w2 and d2 < 6:
+                        o2 = w2.pop()
+                        d2 += 1
+                        if not is_place(o2):
+                            continue
+                        seen_f += [(x[0], x[2]) for x in _pf(o2)]
+                        for (bb2, i2, k2, p2) in f.defs().get(o2["l"], []):
+                            if k2 == "assign":
+                                w2.extend(rvalue_operands(p2))
+                    TAKEN.setdefault(id(f), set()).update(seen_f)
                 walk = meth in WALK_OK
                 for x in payload["args"][:1] if walk else payload["args"]:
                     work.append((x, True if walk else has_proj))
@@ -139,6 +199,10 @@ def run_for(prog, roots, stop, name, known_ok):
                     ty = f.place_ty(a) or ""
                     recursive_ty = any(x in ty for x in ("SExpr", "Action", "Spanned", "[", "Vec")) and "HashMap" not in ty
                     if lookups:
+                        if f.norm in VARS_RESOLVERS and vars_table_is_checked_acyclic(prog):
+                            best = best or ("acyclic-table", "arg%d is looked up in the defvar table, which parse_vars only returns after "
+                                            "its cycle check succeeded" % ai)
+                            continue
                         why.append("arg%d comes from a table lookup (%s)" % (ai, lookups[0].split("::")[-1]))
                         continue
                     stf = [sf for sf in state_fields if sf[1] in ("rpt_action", "src_keys", "vars", "aliases", "templates")]
@@ -146,6 +210,9 @@ def run_for(prog, roots, stop, name, known_ok):
                         why.append("arg%d is read from stored state %s.%s" % (ai, stf[0][0].split("::")[-1], stf[0][1]))
                         if (f.norm, stf[0][1]) in STATE_OK:
                             best = best or ("state-ok", STATE_OK[(f.norm, stf[0][1])])
+                        if (stf[0][0], stf[0][1]) in TAKEN.get(id(f), set()):
+                            best = best or ("state-taken", "arg%d is taken out of %s.%s (Option::take) for the duration of the call: a nested "
+                                            "read of the slot finds it empty, so the re-entry depth is bounded" % (ai, stf[0][0].split("::")[-1], stf[0][1]))
                         continue
                     if recursive_ty and any(pj for (_, pj) in params):
                         best = ("structural", "arg%d is a sub-structure of parameter %s" % (ai, sorted(p for p, pj in params if pj)))
